@@ -318,8 +318,12 @@ fn exec_op(ctx: &Arc<Ctx>, op: &Op) {
             cur_pop();
             let s = match r.map_err(|b| *b) {
                 Ok(()) => format!("ret send {id} ok"),
-                Err(MessagingErr::SendErr(m)) if ser_id(&m) == Some(id) => format!("ret send {id} sendErr"),
-                Err(MessagingErr::SendErr(m)) => format!("ret send {id} sendErrWrongMessage({:?})", ser_id(&m)),
+                // the id of the message that came back inside the error (`sendErr(<back>)`); the driver
+                // compares it with the model's `Res.sendErr back` and the oracle with the send's own id
+                Err(MessagingErr::SendErr(m)) => match ser_id(&m) {
+                    Some(back) => format!("ret send {id} sendErr({back})"),
+                    None => format!("ret send {id} sendErr(?)"),
+                },
                 Err(MessagingErr::InvalidActorType) => format!("ret send {id} invalidType"),
                 Err(MessagingErr::ChannelClosed) => format!("ret send {id} channelClosed"),
             };
@@ -341,8 +345,7 @@ fn exec_op(ctx: &Arc<Ctx>, op: &Op) {
             cur_pop();
             let s = match r {
                 Ok(()) => format!("ret send {id} ok"),
-                Err(MessagingErr::SendErr(m)) if m.id == id => format!("ret send {id} sendErr"),
-                Err(MessagingErr::SendErr(m)) => format!("ret send {id} sendErrWrongMessage({})", m.id),
+                Err(MessagingErr::SendErr(m)) => format!("ret send {id} sendErr({})", m.id),
                 Err(MessagingErr::InvalidActorType) => format!("ret send {id} invalidType"),
                 Err(MessagingErr::ChannelClosed) => format!("ret send {id} channelClosed"),
             };
@@ -400,8 +403,7 @@ impl Actor for Target {
             let t0 = self.sh.tick.fetch_add(1, Ordering::SeqCst);
             let r = match myself.send_message(Msg { id, nested: Vec::new(), box_fails: false, resend: false }) {
                 Ok(()) => "ok".to_string(),
-                Err(MessagingErr::SendErr(b)) if b.id == id => "sendErr".to_string(),
-                Err(MessagingErr::SendErr(b)) => format!("sendErrWrongMessage({})", b.id),
+                Err(MessagingErr::SendErr(b)) => format!("sendErr({})", b.id),
                 Err(MessagingErr::InvalidActorType) => "invalidType".to_string(),
                 Err(MessagingErr::ChannelClosed) => "channelClosed".to_string(),
             };
@@ -617,6 +619,15 @@ fn run_case(env: &mut Env, progs: &[Vec<Op>], eager_local: bool, choose: &mut dy
     }
 
     loop {
+        // wave 2: a case whose threads keep taking steps (a CAS loop that spins, a retry path that never
+        // ends) must not hang the engine: the ranking measure of the model bounds the steps of any case
+        // by a few hundred; give up far above that, the driver reports `no-progress-within-the-measure`
+        if steps > STEP_CAP {
+            env.log.rec(format!("budget {}", show_progs(progs)), format!("exceeded steps={steps} cap={STEP_CAP}"));
+            env.log.flush();
+            eprintln!("admission: case exceeded {STEP_CAP} steps, giving up");
+            std::process::exit(0);
+        }
         if eager_local {
             let mut progress = true;
             while progress {
@@ -908,8 +919,7 @@ fn stress_case(env: &mut Env, srt: &tokio::runtime::Runtime, rng: &mut Rng, idx:
                 let t1 = sh.tick.fetch_add(1, Ordering::SeqCst);
                 let r = match r {
                     Ok(()) => "ok".to_string(),
-                    Err(MessagingErr::SendErr(b)) if b.id == id => "sendErr".to_string(),
-                    Err(MessagingErr::SendErr(b)) => format!("sendErrWrongMessage({})", b.id),
+                    Err(MessagingErr::SendErr(b)) => format!("sendErr({})", b.id),
                     Err(MessagingErr::InvalidActorType) => "invalidType".to_string(),
                     Err(MessagingErr::ChannelClosed) => "channelClosed".to_string(),
                 };
@@ -1076,6 +1086,9 @@ fn gen_ports_progs(rng: &mut Rng) -> Vec<Vec<Op>> {
 fn sr() -> Op {
     Op::Send { nested: Vec::new(), box_fails: false, resend: true, via: Via::Typed }
 }
+
+/// see `run_case`: far above `mu (init progs)` of any generated case
+const STEP_CAP: usize = 20_000;
 
 fn main() {
     let args = Args::parse();
